@@ -103,11 +103,14 @@ CHECKS += [
     bchk("C10", "BOUNDED, exhaustive in its stated bound (never counted as proved). Whole-view postcondition of ingestion - nodes == first occurrence per "
          "span id, association rows == the parent links of exactly those spans - over every stream of length <= 4 over a 6-span pool with a duplicated "
          "id x 4 batch sizes, and over every two-run split (duplicates across runs on a file-backed store).",
-         "Bounded exploration on real sqlite for the end-to-end statement. Additionally PROVED (contracts/c10.py, 53 clauses, every batch, no bound): under "
-         "trusted contracts of three DB primitives over a ghost store, a flush (commit_batched_unique_data_to_database -> commit_batched_data_to_database -> "
-         "check_and_filter_non_unique_nodes_and_associations) never fails on a well-formed store, stores exactly the first occurrence of every id not yet "
-         "stored, adds exactly the parent links of the rows it stored, empties the batch and preserves well-formedness; the three primitive contracts are "
-         "what the bounded harness validates on real sqlite. _save_data / add_node_relations / convert_otel_event_to_node_model are not under contract.",
+         "Bounded exploration on real sqlite for the end-to-end statement. Additionally PROVED for all streams and every batch size (contracts/c10.py, 111 "
+         "clauses, no bound), under trusted contracts of three DB primitives over a ghost store (validated on real sqlite by the bounded harness): "
+         "IngestData.load_to_data_holder - the property's own statement: afterwards the store's ids are the ids stored before plus the ids of the stream; "
+         "every id that is new is represented by a row with the content of its FIRST occurrence in the stream; rows stored before are untouched; the "
+         "association rows are those stored before plus exactly the parent links of the new first occurrences; nothing is left pending; the store is "
+         "well-formed. It rests on: _save_data / save_data (specified on the virtual store = stored rows + first occurrences of the pending batch), "
+         "SQLDataHolder.__exit__ (flush on leaving the with block), and a flush (commit_batched_unique_data_to_database -> commit_batched_data_to_database "
+         "-> check_and_filter_non_unique_nodes_and_associations) that never fails on a well-formed store and stores exactly the first occurrences.",
          "DESIGN.md 4/C10"),
     bchk("C11", "BOUNDED (never counted as proved). Whole-view postconditions of remove_inconsistent_jobs, remove_jobs_outside_of_time_window and "
          "update_job_names_by_root_span (exactly the broken / outside traces removed, every other row unchanged, root name everywhere, well-formedness "
